@@ -1,7 +1,7 @@
 (* C19 -- audited obligations.  Statements only; proofs are in coq/Watchdog/*.v. *)
 Require Import ZArith List Bool.
 Require Import PPLV.Watchdog.TimeSpec PPLV.gen.Facts_Time PPLV.Watchdog.Time PPLV.Watchdog.WD
-               PPLV.Watchdog.WDProofs PPLV.Watchdog.WDOrder PPLV.Watchdog.WDEarly PPLV.Watchdog.WDNever PPLV.Watchdog.TW.
+               PPLV.Watchdog.WDProofs PPLV.Watchdog.WDOrder PPLV.Watchdog.WDEarly PPLV.Watchdog.WDNever PPLV.Watchdog.WDPrompt PPLV.Watchdog.TW.
 Import ListNotations.
 Open Scope Z_scope.
 
@@ -49,6 +49,30 @@ Theorem never_early_source :
   then forall evs, ~ Early (run cmp_src evs init)
   else exists evs, Early (run cmp_src evs init).
 Proof. exact never_early_src_status. Qed.
+
+(* "Provided it is still alive, promptly after the deadline" -- the bookkeeping part (no lost wake-up).
+   Every comparison record, every schedule: a watchdog that is alive (constructor entered, destructor not called) is
+   either still inside its own constructor before the insertion, or pending, or has had its handler run. *)
+Theorem alive_is_tracked :
+  forall (c : cmp) (evs : list event) (i : nat),
+    let s := run c evs init in
+    In i (alive s) ->
+    In i (pids s) \/ In i (expired s) \/ (pc_id (pc s) = Some i /\ pre_insert (pc s) = true).
+Proof. exact tracked_c. Qed.
+
+(* Intended comparisons, every schedule: in every quiescent state no error was raised, the critical-section flag is
+   off, an alive watchdog whose handler has not run is pending, the timer is armed whenever something is pending, and
+   the expiry that comes next runs (and logs, at that instant) the handler of the first pending watchdog. *)
+Theorem no_lost_wakeup :
+  forall c, cmp_ok c -> forall evs,
+    let s := run c evs init in
+    pc s = Idle ->
+    err s = false /\ incs s = false /\
+    (forall i, In i (alive s) -> ~ In i (expired s) -> In i (pids s)) /\
+    (pending s <> [] -> 0 < rem s) /\
+    (forall d id r, pending s = (d, id) :: r ->
+       exists new, log (do_event c Fire s) = new ++ log s /\ In (id, now s + rem s, d) new).
+Proof. exact no_lost_wakeup_c. Qed.
 
 (* Threshold_Watcher: once; only at a check where the weight exceeds the threshold; at the first such check;
    check function installed exactly while thresholds are pending. *)
